@@ -14,8 +14,8 @@ RULE = ("generated projects with the 'text' hazard profile (schema/declaration d
 
 def run(ctx):
     cli = runner.build_cli()
-    n = ctx.pick(80, 5000)
-    results = e3.run_cases(ctx, cli, ["text", "core", "keys", "names"], n, "c13", [("e3_oracles", "analyze_c13")])
+    n = ctx.pick(50, 4000)
+    results = e3.run_cases(ctx, cli, ["text", "core", "keys", "names", "rt", "rt_text"], n, "c13", [("e3_oracles", "analyze_c13")])
     a = e3.aggregate(results, "e3_oracles.analyze_c13", "combo")
     cov = {"evaluations": len(results), "distinct_nontrivial": a["distinct"], "rule": RULE,
            "samples": a["samples"] or [{"note": "none"}], "successful_compiles": a["ok"], "observed": a["stats"]}
